@@ -650,6 +650,10 @@ def plan_c19(tier, seed):
     jobs += [Job("h_arith", "rwd", "tsan", "buckets-threads", "all", (0, 3 if q else 10), extra=["--lookups", "20000"], cpu=300)]
     # bucket selection as the collections use it, through all three interfaces (member, allocator_traits, composable traits)
     jobs += coll_jobs(["rwd", "dbg"], ["walk"], _scale(tier, 20, 400), 250, _scale(tier, 20, 100))
+    for cfg in ("rwd", "dbg"):
+        for k in FAIL_KINDS:
+            if k.startswith("coll"):
+                jobs += [Job("h_fail", cfg, "asan", "maxima", k, c, cpu=300) for c in chunks(_scale(tier, 100, 1500), 50 if q else 150)]
     nrand = 16 if q else 100
     per = 62500 if q else 1000000
     jobs += [Job("h_arith", "rwd", "asan" if q else "plain", "random", "all", c, extra=["--samples", str(per)], cpu=300) for c in chunks(nrand, 1)]
